@@ -447,6 +447,7 @@ namespace {
             { "calling_convention", [&](int i) { return static_cast<const void*>(&lex.get_calling_convention(word(i, "cc"))); } },
          };
          for (auto& f : fams) {
+            opt.kick();
             for (int i = 0; i < N; ++i) { (void) f.make(order(ins_order, i)); rep.count("transitions"); }
             std::vector<const void*> canon(N);
             for (int i = 0; i < N; ++i) canon[i] = f.make(i);
